@@ -16,7 +16,9 @@ ALL = [f"C{i:02d}" for i in range(1, 21)]
 def run_demo(tmp, demo):
     env = dict(os.environ, PYTHONPATH=tmp)
     r = subprocess.run(["/venv/bin/python", demo], cwd=tmp, env=env, capture_output=True, text=True, timeout=300)
-    return r.returncode, (r.stdout + r.stderr).strip().splitlines()[-3:]
+    import hashlib
+    full = r.stdout + r.stderr
+    return r.returncode, full.strip().splitlines()[-3:], hashlib.sha256(full.encode()).hexdigest()[:16]
 
 
 def main():
@@ -44,7 +46,11 @@ def main():
                            if l.startswith(("  finding", "ANALYSIS-ERROR"))][:8]
         refactor = "--refactor" in sys.argv
         if refactor:
-            confirmed = out["demo_clean"][0] == 0 and out["demo_patched"][0] == 0 and out["tests_patched"][0] == 0
+            # behaviour-preserving: the differential demo gives the same output with and without the patch. (Its
+            # recorded expectations may predate a later fix: of the repo: then it fails identically on both.)
+            same = out["demo_clean"][0] == out["demo_patched"][0] and out["demo_clean"][2] == out["demo_patched"][2]
+            out["demo_expectations_stale"] = same and out["demo_clean"][0] != 0
+            confirmed = same and out["tests_patched"][0] == 0
         else:
             confirmed = out["demo_clean"][0] == 0 and out["demo_patched"][0] != 0 and out["tests_patched"][0] == 0
         out["confirmed"] = confirmed
